@@ -137,3 +137,27 @@ Definition dot_ok (c : qcfg * list Z * bytes) : bool :=
   let '(cfg, rs, gb) := c in
   match print_dot_name cfg 4 rs with Some b => zlist_eqb b gb | None => false end.
 Definition check_dot := mismatches dot_ok.
+
+(* ---- templates with substitutions, BigInt, regexp ---- *)
+From V Require Import C01.Template.
+(* (cfg, prefix, head units, tail units list, Go bytes after the prefix) *)
+Definition template_ok (c : qcfg * bytes * list Z * list (list Z) * bytes) : bool :=
+  let '(cfg, prefix, head, tails, gb) := c in zlist_eqb (print_template cfg prefix head tails) gb.
+Definition check_template := mismatches template_ok.
+(* specification side: the code points the model printed (which rendered to the
+   observed bytes) split into exactly the cooked chunks *)
+Definition template_spec_ok (c : qcfg * bytes * list Z * list (list Z) * bytes) : bool :=
+  let '(cfg, prefix, head, tails, gb) := c in
+  match template_value (template_cps cfg prefix head tails) with
+  | Some chunks => list_eqb zlist_eqb chunks (head :: tails)
+  | None => false
+  end.
+Definition check_template_spec := mismatches template_spec_ok.
+(* (prefix, value text, Go bytes after the prefix) *)
+Definition bigint_ok (c : bytes * bytes * bytes) : bool :=
+  let '(prefix, v, gb) := c in zlist_eqb (print_bigint prefix v) gb.
+Definition check_bigint := mismatches bigint_ok.
+(* (cfg, prefix, value text, Go bytes after the prefix) *)
+Definition regexp_ok (c : qcfg * bytes * bytes * bytes) : bool :=
+  let '(cfg, prefix, v, gb) := c in zlist_eqb (print_regexp cfg prefix v) gb.
+Definition check_regexp := mismatches regexp_ok.
